@@ -541,3 +541,19 @@ Example C12_e2e_refused_nonvacuous :
                  (e2e_sep0 ++ assemble (dmg_stream (skipn 6 e2e_dmg_items))))
               ([], Some EUnknownDescriptor) = true.
 Proof. exact e2e_refused_nonvacuous. Qed.
+
+(* ... and the same with the stub template decoder (the *_stub theorems): six
+   messages of 031031 templates (editions 3, 4, 2), one with NULs for '7777', one
+   with the undefined 063255 as second descriptor, one with the length of section
+   4 (5 octets) set to 4 *)
+Example C12_e2e_stub_nonvacuous :
+  forallb (dmg_okb stub_dd stub_refusesb false) stub_dmg_items = true /\
+  forallb (dmg_okb stub_dd stub_refusesb true) stub_dmg_items = true /\
+  forallb (item_okb stub_dd false) (map fst (filter undamaged stub_dmg_items)) = true /\
+  outcome_eqb (frame_generate stub_dd e2e_view e2e_tdp e2e_filt false true false
+                 (e2e_sep0 ++ assemble (dmg_stream stub_dmg_items)))
+              (map dmg_bytes (filter undamaged stub_dmg_items), None) = true /\
+  outcome_eqb (frame_generate stub_dd e2e_view e2e_tdp e2e_filt false false false
+                 (e2e_sep0 ++ assemble (stream_of (map fst (filter undamaged stub_dmg_items)))))
+              (map item_bytes (map fst (filter undamaged stub_dmg_items)), None) = true.
+Proof. exact e2e_stub_nonvacuous. Qed.
